@@ -19,6 +19,11 @@ PInput == <<"input", "n1", "{">>
 PSel == <<"{">>
 PSchema == <<"schema">>
 PFrag == <<"fragment">>
+\* const contexts: a variable is not a value here (October 2021 Value[Const])
+PVarDirArg == <<"query", "(", "$", "n1", ":", "n1", "@", "n1", "(">>   SVarDirArg == <<")", ")", "{", "n1", "}">>
+PVarDefault == <<"query", "(", "$", "n1", ":", "n1", "=">>             \* suffix SVars
+PTypeDirArg == <<"type", "n1", "@", "n1", "(">>                       STypeDirArg == <<")", "{", "n1", ":", "n1", "}">>
+PArgDefault == <<"type", "n1", "{", "n1", "(", "n1", ":", "n1", "=">>  SArgDefault == <<")", ":", "n1", "}">>
 
 VARIABLE mid
 toks == Prefix \o mid \o Suffix
